@@ -267,33 +267,67 @@ Proof.
   cbn [fst snd] in *. subst data. rewrite (mm_tail_app _ extra h1 TL). reflexivity.
 Qed.
 
-(* ---------- the fold of HashCallback is a left fold ---------- *)
+(* ---------- the native dispatch and the generated fold step ---------- *)
+Lemma native_mem_is_64a mem len seed : murmur_native_mem mem len seed = murmur64a_mem mem len seed.
+Proof. reflexivity. Qed.
+Lemma native_is_64a bs seed : murmur_native bs seed = murmur64a bs seed.
+Proof. reflexivity. Qed.
+
+(* what fields.hh's HashCallback::operator() does with one piece, as extracted: MurmurHashNative(piece, piece.size(), previous value) *)
+Lemma hashcallback_step p h : eval_key (fun _ => p) h hashcallback_step_shape = murmur64a p h.
+Proof. reflexivity. Qed.
+
+(* ---------- the fold of HashCallback is the specified left fold ---------- *)
 Lemma hash_fold_nil seed : hash_fold seed [] = seed.
 Proof. reflexivity. Qed.
 Lemma hash_fold_app seed ps qs : hash_fold seed (ps ++ qs) = hash_fold (hash_fold seed ps) qs.
 Proof. unfold hash_fold. apply fold_left_app. Qed.
 Lemma hash_fold_snoc seed ps p : hash_fold seed (ps ++ [p]) = murmur_native p (hash_fold seed ps).
-Proof. rewrite hash_fold_app. reflexivity. Qed.
+Proof. rewrite hash_fold_app. unfold hash_fold at 1. cbn [fold_left]. rewrite hashcallback_step. reflexivity. Qed.
+
+Lemma fold_spec_snoc seed ps p : fold_spec seed (ps ++ [p]) = murmur64a p (fold_spec seed ps).
+Proof. unfold fold_spec. rewrite rev_app_distr. reflexivity. Qed.
+
+Theorem hash_fold_is_fold_spec seed ps : hash_fold seed ps = fold_spec seed ps.
+Proof.
+  induction ps as [|p ps IH] using rev_ind; [reflexivity|].
+  rewrite hash_fold_snoc, fold_spec_snoc, IH. reflexivity.
+Qed.
 
 Theorem fold_is_left_fold_proof seed ps p :
-  hash_fold seed [] = seed /\ hash_fold seed (ps ++ [p]) = murmur64a p (hash_fold seed ps).
-Proof. split; [apply hash_fold_nil|apply hash_fold_snoc]. Qed.
+  hash_fold seed ps = fold_spec seed ps /\
+  fold_spec seed [] = seed /\ fold_spec seed (ps ++ [p]) = murmur64a p (fold_spec seed ps).
+Proof. split; [apply hash_fold_is_fold_spec|]. split; [reflexivity|apply fold_spec_snoc]. Qed.
 
 Lemma hash_fold_range seed ps : 0 <= seed < two64 -> Forall (fun p => bytes_okb p = true) ps -> 0 <= hash_fold seed ps < two64.
 Proof.
-  revert seed. induction ps as [|p ps IH]; intros seed Hs HB; [exact Hs|].
-  inversion HB; subst. cbn [hash_fold fold_left]. apply IH; [|assumption]. apply murmur_range_proof. assumption.
+  intros Hs HB. rewrite hash_fold_is_fold_spec. unfold fold_spec.
+  assert (Forall (fun p => bytes_okb p = true) (rev ps)) as HR by (apply Forall_rev; exact HB).
+  induction HR as [|p r Hp HR IH]; [exact Hs|]. cbn [chain_rev]. apply murmur_range_proof. exact Hp.
 Qed.
 
 (* ---------- tools ---------- *)
+(* shard: default-constructed HashCallback (seed from fields.hh), the fold, modulo the shard count *)
 Theorem shard_index_proof pieces n : 0 < n ->
-  shard_index pieces n = hash_fold shard_seed pieces mod n /\ 0 <= shard_index pieces n < n.
-Proof. intros Hn. split; [reflexivity|]. unfold shard_index. apply Z.mod_pos_bound. exact Hn. Qed.
+  shard_index pieces n = fold_spec 47849374332489 pieces mod n /\ 0 <= shard_index pieces n < n.
+Proof.
+  intros Hn. split; [|unfold shard_index; apply Z.mod_pos_bound; exact Hn].
+  unfold shard_index, shard_hash. rewrite hash_fold_is_fold_spec. reflexivity.
+Qed.
 
-Theorem case_keys_agree_proof lowered source :
-  case_key_train lowered source = case_key_apply lowered source /\
-  case_key_apply lowered source = murmur64a lowered (murmur64a source 0).
+(* train_case and apply_case: the shapes extracted from the two sources are the same shape, namely
+   64A(lowered target with ITS OWN length, seed = 64A(source with its own length, seed 0)) *)
+Lemma case_shapes_agree :
+  train_case_key_shape = apply_case_key_shape /\
+  apply_case_key_shape = KHash F64A RLowered RLowered (KHash F64A RSource RSource (KConst 0)).
 Proof. split; reflexivity. Qed.
+
+Theorem case_keys_agree_proof lowered source target :
+  case_key_train lowered source target = case_key_apply lowered source /\
+  case_key_apply lowered source = murmur64a lowered (murmur64a source 0).
+Proof.
+  unfold case_key_train, case_key_apply. destruct case_shapes_agree as [E1 E2]. rewrite E1, E2. split; reflexivity.
+Qed.
 
 Theorem seeds_proof :
   shard_seed = 47849374332489 /\ dedupe_line_seed = 1 /\ dedupe_field_seed = 1 /\ cache_seed = 0 /\
@@ -498,5 +532,16 @@ Qed.
 
 Theorem native_dispatch_proof bs seed :
   murmur_native_for 8 bs seed = Some (murmur64a bs seed) /\ murmur_native_for 4 bs seed = murmur64b bs seed /\
-  murmur_native bs seed = murmur64a bs seed.
+  (platform_pointer_size = 8 -> murmur_native bs seed = murmur64a bs seed).
 Proof. repeat split; reflexivity. Qed.
+
+(* the other whole-line keys, each from its own source: MurmurHashNative(line, line.size(), 1) *)
+Theorem line_keys_proof line :
+  dedupe_line_key line = murmur64a line 1 /\ subtract_insert_key line = murmur64a line 1 /\
+  subtract_lookup_key line = murmur64a line 1 /\ commoncrawl_dedupe_key line = murmur64a line 1 /\
+  (forall pieces, dedupe_field_key pieces = fold_spec 1 pieces) /\ (forall pieces, cache_key pieces = fold_spec 0 pieces).
+Proof.
+  repeat split; try reflexivity.
+  - intros pieces. unfold dedupe_field_key. rewrite hash_fold_is_fold_spec. reflexivity.
+  - intros pieces. rewrite <- (hash_fold_is_fold_spec 0 pieces). reflexivity.
+Qed.
